@@ -7,7 +7,8 @@
    Statements only; proofs are in Plat/PlatProofs.v and Elf/ElfProofs.v. *)
 From Coq Require Import List Arith NArith Bool Lia Sorted.
 Import ListNotations.
-Require Import Elf ElfFile ElfProofs VParse VDec Tags TagsLit TagsModel TagsProofs PlatLit PlatModel PlatProofs.
+Require Import Elf ElfFile ElfProofs ElfDisk ElfDiskProofs VParse VDec Tags TagsLit TagsModel TagsProofs TagsThread PlatLit PlatModel PlatProofs
+               PlatLoader PlatLoaderProofs PlatParse PlatText.
 Open Scope N_scope.
 
 (* ------------------------------------------------------------------ manylinux *)
@@ -290,3 +291,191 @@ Proof.
   split; [split; [vm_compute; repeat split | repeat constructor; vm_compute; reflexivity]|].
   split; [reflexivity|]. split; vm_compute; reflexivity.
 Qed.
+
+(* ====================================================================================================================
+   Improvement round (audit C16, and the C11 / C20 items of this domain)
+   ==================================================================================================================== *)
+
+(* ------------------------------------------------------------------ ELF: any table, any medium *)
+(* 19. the general program-header table theorem: for ANY e_phoff and ANY stride e_phentsize, if the entries of a table are present in
+       the file at e_phoff + e_phentsize * k (up to and including the first PT_INTERP entry; positions seekable), then
+       .interpreter is decided by the first PT_INTERP entry.  (15. is the special case of the encoder's contiguous layout.) *)
+Theorem C16_elf_any_table f e is64 big phs :
+  layout (capacity e) (encoding e) = Some (is64, big) -> e_phnum e = N.of_nat (length phs) ->
+  table_at f is64 big (e_phoff e) (e_phentsize e) 0 phs ->
+  interpreter f e = interp_result f is64 (first_interp is64 phs).
+Proof. apply interpreter_any_table. Qed.
+Print Assumptions C16_elf_any_table.
+Theorem C16_elf_any_table_scan f is64 big phoff entsize phs start :
+  table_at f is64 big phoff entsize start phs ->
+  scan f is64 big phoff entsize (range_from (length phs) start) = interp_result f is64 (first_interp is64 phs).
+Proof. apply scan_any_table. Qed.
+Print Assumptions C16_elf_any_table_scan.
+(* 20. the same code over a regular file (what _get_musl_version and _parse_elf open): seek refuses offsets from [seek_max] on,
+       read refuses sizes from [read_max] on (OSError / ValueError / MemoryError / OverflowError - all handled now, D40).
+       io.BytesIO is the instance with both limits 2^63; a scan that stays below the limits answers what the in-memory scan
+       answers; a PT_INTERP entry beyond them is ELFInvalid; on both media the outcome is None, a path or ELFInvalid - the
+       result type has no other constructor, so no other exception leaves .interpreter (the C11 clause for ELF input). *)
+Theorem C16_elf_regular_file lim f e is64 big :
+  interpreter f e = interpreter_disk mem_limits f e /\
+  (layout (capacity e) (encoding e) = Some (is64, big) -> seek_max lim <= ssize_limit -> read_max lim <= ssize_limit ->
+   Forall (fun i => entry_within lim f is64 big (e_phoff e + e_phentsize e * i)) (range_N (e_phnum e)) ->
+   interpreter_disk lim f e = interpreter f e) /\
+  (interpreter_disk lim f e = INone \/ (exists p, interpreter_disk lim f e = ISome p) \/ interpreter_disk lim f e = IInvalid).
+Proof.
+  split; [apply interpreter_is_disk|]. split; [apply interpreter_disk_within|].
+  destruct (interpreter_disk lim f e); [now left | right; left; eauto | now right; right].
+Qed.
+Print Assumptions C16_elf_regular_file.
+Theorem C16_elf_regular_file_entry lim f is64 big phoff entsize i more ph :
+  phoff + entsize * i < seek_max lim -> fits (p_sizes is64) ph ->
+  read_at f (phoff + entsize * i) (total (p_sizes is64)) = pack big (p_sizes is64) ph ->
+  (scan_disk lim f is64 big phoff entsize (i :: more) =
+   if ph_type is64 ph =? 3 then interp_result_disk lim f is64 (Some ph) else scan_disk lim f is64 big phoff entsize more) /\
+  (ph_type is64 ph = 3 -> (seek_max lim <= ph_off is64 ph \/ read_max lim <= ph_size is64 ph) ->
+   scan_disk lim f is64 big phoff entsize (i :: more) = IInvalid).
+Proof. intros A B C. split; [now apply scan_disk_step_packed | intros; now apply (scan_disk_interp_unreadable lim f is64 big phoff entsize i more ph)]. Qed.
+Print Assumptions C16_elf_regular_file_entry.
+
+(* ------------------------------------------------------------------ musl, end to end *)
+(* 21. from the bytes of sys.executable to the tags: an image (any layout the encoder produces) whose first PT_INTERP entry points at
+       the payload hands the payload, NUL padding stripped, to the loader iff it contains "musl"; the tags are then
+       musllinux_<M>_<k>_<arch>, k = m .. 0 per architecture, for the version (M, m) the loader's banner states (17., 23.);
+       no "musl" in the path, or no parsable banner: no tags *)
+Theorem C16_musl_end_to_end s ph err archs : wf_spec s ->
+  first_interp (s_is64 s) (s_phdrs s) = Some ph -> ph_off (s_is64 s) ph = payload_off s -> ph_size (s_is64 s) ph = flen (s_payload s) ->
+  flen (s_payload s) < ssize_limit ->
+  (forall M m, contains s_musl (strip_nul (s_payload s)) = true -> parse_musl_version err = Some (M, m) ->
+     musllinux_tags (Some (encode s)) err archs = map (render3 s_musllinux_) (musl_struct (Some (M, m)) archs)) /\
+  (contains s_musl (strip_nul (s_payload s)) = true -> parse_musl_version err = None -> musllinux_tags (Some (encode s)) err archs = []) /\
+  (contains s_musl (strip_nul (s_payload s)) = false -> musllinux_tags (Some (encode s)) err archs = []).
+Proof. apply musl_end_to_end. Qed.
+Print Assumptions C16_musl_end_to_end.
+(* 21b. the same through the regular file and the real subprocess.run (the function the correspondence run executes,
+        Run/RunPlat.v: musllinux_tags_x): the four outcomes.  The two exceptions are a defect of the code (finding D41): the
+        subprocess.run call is outside the try block of _get_musl_version. *)
+Theorem C16_musl_end_to_end_real lim le s ph archs : wf_spec s -> 4194304 <= seek_max lim ->
+  first_interp (s_is64 s) (s_phdrs s) = Some ph -> ph_off (s_is64 s) ph = payload_off s -> ph_size (s_is64 s) ph = flen (s_payload s) ->
+  flen (s_payload s) < read_max lim ->
+  let ld := strip_nul (s_payload s) in
+  (contains s_musl ld = false -> musllinux_tags_x lim (Some (encode s)) le archs = Done []) /\
+  (contains s_musl ld = true -> has_nul ld = true -> musllinux_tags_x lim (Some (encode s)) le archs = Raised ExValueError) /\
+  (contains s_musl ld = true -> has_nul ld = false -> le_all le = false -> ~ In ld (le_existing le) ->
+     musllinux_tags_x lim (Some (encode s)) le archs = Raised ExFileNotFound) /\
+  (contains s_musl ld = true -> has_nul ld = false -> (le_all le = true \/ In ld (le_existing le)) ->
+     musllinux_tags_x lim (Some (encode s)) le archs = Done (map (render3 s_musllinux_) (musl_struct (parse_musl_version (le_stderr le)) archs))).
+Proof. apply musl_end_to_end_x. Qed.
+Print Assumptions C16_musl_end_to_end_real.
+Theorem C16_musl_loader_exceptions lim exe le archs ld : musl_loader_disk lim exe = Some ld ->
+  (has_nul ld = true -> musllinux_tags_x lim exe le archs = Raised ExValueError) /\
+  (has_nul ld = false -> le_all le = false -> ~ In ld (le_existing le) -> musllinux_tags_x lim exe le archs = Raised ExFileNotFound).
+Proof. apply musl_x_raises. Qed.
+Print Assumptions C16_musl_loader_exceptions.
+(* 21c. when nothing raises and the file stays below the limits, the real pipeline is the oracle model of 8. and 12. *)
+Theorem C16_musl_agrees_with_oracle is32 plat e lim le archs :
+  musl_loader_disk lim (m_exe e) = musl_loader (m_exe e) ->
+  (forall ld, musl_loader (m_exe e) = Some ld -> run_loader le ld = Done (le_stderr le)) ->
+  musllinux_tags_x lim (m_exe e) le archs = Done (musllinux_tags (m_exe e) (le_stderr le) archs) /\
+  linux_platforms_x is32 plat e lim le = Done (linux_platforms is32 plat e (le_stderr le)) /\
+  musl_loader_disk mem_limits (m_exe e) = musl_loader (m_exe e).
+Proof. intros A R. split; [now apply musl_x_agrees|]. split; [now apply linux_x_agrees | apply musl_loader_mem]. Qed.
+Print Assumptions C16_musl_agrees_with_oracle.
+
+(* ------------------------------------------------------------------ libc version strings, completely *)
+(* 22. _parse_glibc_version accepts exactly  <digits> "." <digits> <rest>  (rest not starting with a digit) and returns the decimal
+       values (leading zeros allowed); _parse_musl_version accepts exactly the outputs whose first non-blank stripped line starts
+       with "musl" and whose second is "Version " + such a version.  16./17. are instances. *)
+Theorem C16_glibc_string_iff s M m :
+  (parse_glibc_version s = Some (M, m) <-> version_shape s M m) /\
+  (parse_glibc_version s = None <-> ~ exists M m, version_shape s M m).
+Proof. split; [apply parse_glibc_iff | apply parse_glibc_none_iff]. Qed.
+Print Assumptions C16_glibc_string_iff.
+Theorem C16_musl_string_iff output M m :
+  parse_musl_version output = Some (M, m) <->
+  exists l0 l1 more v, nonblank_lines output = l0 :: l1 :: more /\ firstn 4 l0 = s_musl /\ l1 = s_Version_ ++ v /\ version_shape v M m.
+Proof. apply parse_musl_iff. Qed.
+Print Assumptions C16_musl_string_iff.
+
+(* ------------------------------------------------------------------ the text of the statement vs the code *)
+(* 23. where the code departs from the text (each also a law on the real code, harness/props/c16.py, and a recorded finding):
+       the floor is chosen per list, not per architecture (D27) - it is the text's floor for every list of one floor class;
+       the superset clause fails across glibc majors above the assumed last minor and below major 2 (D42), and for iOS exactly
+       when the older minor exceeds 9 (D43); a repeated architecture repeats every tag. *)
+Theorem C16_mixed_list_floor :
+  arch_floor s_s390x = 17%nat /\
+  In (MT false 2 16 s_s390x) (many_spec [s_s390x; s_x86_64] 2 19 None) /\ In (MT true 2 5 s_s390x) (many_spec [s_s390x; s_x86_64] 2 19 None).
+Proof. exact mixed_list_floor. Qed.
+Print Assumptions C16_mixed_list_floor.
+Theorem C16_homogeneous_floor archs M m pm k b ar :
+  (forall a, In a archs -> arch_floor a = arch_floor ar) -> In (MT k 2 b ar) (many_spec archs M m pm) -> (arch_floor ar <= b)%nat.
+Proof. apply homogeneous_floor. Qed.
+Print Assumptions C16_homogeneous_floor.
+Theorem C16_cross_major_superset_fails :
+  In (MT false 2 51 s_x86_64) (many_spec [s_x86_64] 2 51 None) /\ ~ In (MT false 2 51 s_x86_64) (many_spec [s_x86_64] 3 0 None) /\
+  In (MT false 1 3 s_x86_64) (many_spec [s_x86_64] 1 3 None) /\ ~ In (MT false 1 3 s_x86_64) (many_spec [s_x86_64] 2 17 None).
+Proof. exact cross_major_superset_fails. Qed.
+Print Assumptions C16_cross_major_superset_fails.
+Theorem C16_ios_superset_iff M m M' m' ma : (12 <= M)%nat -> (12 <= M')%nat ->
+  (incl (ios_struct (M, m) ma) (ios_struct (M', m') ma) <-> ((M = M' /\ m <= m') \/ (M < M' /\ m <= 9))%nat).
+Proof. apply ios_superset_iff. Qed.
+Print Assumptions C16_ios_superset_iff.
+Theorem C16_ios_minor10_superset_fails ma :
+  In (13, 10, dash_to_us ma)%nat (ios_struct (13, 10)%nat ma) /\ ~ In (13, 10, dash_to_us ma)%nat (ios_struct (14, 0)%nat ma).
+Proof. apply ios_minor10_superset_fails. Qed.
+Print Assumptions C16_ios_minor10_superset_fails.
+Theorem C16_repeated_arch_repeats :
+  ~ NoDup (many_spec [s_aarch64; s_aarch64] 2 18 None) /\ ~ NoDup (musl_struct (Some (1, 2)%nat) [s_aarch64; s_aarch64]).
+Proof. exact repeated_arch_repeats. Qed.
+Print Assumptions C16_repeated_arch_repeats.
+
+(* ------------------------------------------------------------------ memoised probes across calls (also C20) *)
+(* 24. _get_musl_version(executable) is memoised per executable path: every call answers what the FIRST call with that path probed;
+       if a path always gets the same uncached answer memoisation is invisible; different paths do not share an answer; an exception
+       is not memoised.  The battery step (Run/RunPlat.v p.probes: run_steps) threads this keyed memo and the one-cell glibc memo
+       of 18. through _manylinux.platform_tags / _musllinux.platform_tags: with empty memos a step is the uncached answer, and the
+       glibc cell is consulted only when the ABI check passes. *)
+Theorem C16_keyed_probe_cache l :
+  (forall i k now, nth_error l i = Some (k, now) ->
+     exists v, nth_error (run_keyed [] l) i = Some v /\ first_for k (firstn (S i) l) = Some v) /\
+  ((forall i j k a b, nth_error l i = Some (k, a) -> nth_error l j = Some (k, b) -> a = b) -> run_keyed [] l = map snd l) /\
+  (forall k1 k2 a b, k1 <> k2 -> run_keyed [] [(k1, a); (k2, b); (k1, b)] = [a; b; a]) /\
+  (forall c k x, cache_get k c = None -> cached_musl c k (Raised x) = (c, Raised x)).
+Proof.
+  split; [intros; eapply keyed_first_probe; eauto|]. split; [apply keyed_transparent|]. split; [apply keyed_not_shared | apply raised_not_cached].
+Qed.
+Print Assumptions C16_keyed_probe_cache.
+Theorem C16_probe_steps archs s st :
+  snd (step_probes archs pstate0 st) =
+    (manylinux_tags (st_menv st) archs, musllinux_tags_x (st_lim st) (m_exe (st_menv st)) (st_le st) archs) /\
+  ps_glibc (fst (step_probes archs s st)) =
+    (if have_compatible_abi (m_exe (st_menv st)) archs
+     then fst (cached_probe (ps_glibc s) (get_glibc_version (m_confstr (st_menv st)) (m_ctypes (st_menv st))))
+     else ps_glibc s).
+Proof. split; [apply step_fresh | apply step_glibc_cell]. Qed.
+Print Assumptions C16_probe_steps.
+
+(* non-vacuity of 19.-24. (closed boolean computations on the example image of C16_nonvacuous_elf and variants of it) *)
+Definition ex_nul_spec : elf_spec :=
+  {| s_is64 := true; s_big := false; s_pad := [1]; s_type := 3; s_machine := 62; s_version := 1; s_entry := 4096; s_shoff := 0;
+     s_flags := 0; s_ehsize := 64; s_phdrs := [[3; 4; 114; 114; 114; 9; 9; 1]]; s_payload := [120; 0; 109; 117; 115; 108; 0; 121; 0] |}.
+Definition ex_banner : list N := s_musl ++ [32; 108; 105; 98; 99; 10] ++ s_Version_ ++ [49; 46; 50; 46; 51; 10].
+Definition res_eqb (a : outcome (list (list N))) (b : outcome (list (list N))) : bool :=
+  match a, b with
+  | Done x, Done y => Nat.eqb (length x) (length y) && forallb (fun p => streq (fst p) (snd p)) (combine x y)
+  | Raised ExValueError, Raised ExValueError => true | Raised ExFileNotFound, Raised ExFileNotFound => true | _, _ => false end.
+Definition C16_round2_check : bool :=
+  let lim := {| seek_max := 281474976710656; read_max := 281474976710656 |} in
+  let le_all_ok := {| le_all := true; le_existing := []; le_stderr := ex_banner |} in
+  let le_none := {| le_all := false; le_existing := []; le_stderr := ex_banner |} in
+  (* the good image: three tags musllinux_1_2 .. 1_0; the loader missing: FileNotFoundError; a NUL inside the path: ValueError *)
+  res_eqb (musllinux_tags_x lim (Some (encode ex_spec)) le_all_ok [s_x86_64])
+          (Done (map (render3 s_musllinux_) [(1, 2, s_x86_64); (1, 1, s_x86_64); (1, 0, s_x86_64)]%nat)) &&
+  res_eqb (musllinux_tags_x lim (Some (encode ex_spec)) le_none [s_x86_64]) (Raised ExFileNotFound) &&
+  res_eqb (musllinux_tags_x lim (Some (encode ex_nul_spec)) le_all_ok [s_x86_64]) (Raised ExValueError) &&
+  (* the keyed memo: path A probed first with 1.2, later the same path with another loader output still answers 1.2; path B is separate *)
+  match run_keyed [] [([65], Some (1, 2)%nat); ([66], None); ([65], Some (1, 5)%nat)] with
+  | [Some (1, 2)%nat; None; Some (1, 2)%nat] => true | _ => false end &&
+  match parse_glibc_version [48; 50; 46; 48; 49; 55; 45; 120] with Some (2, 17)%nat => true | _ => false end &&
+  match parse_glibc_version [50; 46] with None => true | _ => false end.
+Example C16_round2_nonvacuous : C16_round2_check = true.
+Proof. vm_compute. reflexivity. Qed.
